@@ -495,6 +495,7 @@ func replayFaultCases(t *testing.T) {
 	}
 	sort.Strings(files)
 	for _, path := range files {
+		fmt.Printf("REPLAY-START property=C07 file=%s\n", path)
 		var fc FaultCase
 		if err := json.Unmarshal(cases[path], &fc); err != nil {
 			t.Fatalf("%s: %v", path, err)
